@@ -65,9 +65,13 @@ def _facts(f, n, pol, out, resolve, leaf):
             _facts(f, l, not pol, out, resolve, False)
             _facts(f, r, pol, out, resolve, True)
         return
-    if k == "BinaryOperator" and n["op"] in NEG:
+    if k == "CXXOperatorCallExpr" and n.get("op") == "!" and len(X.call_args(n)) == 1:
+        _facts(f, X.call_args(n)[0], not pol, out, resolve, leaf)
+        return
+    if (k == "BinaryOperator" and n["op"] in NEG) or (
+            k == "CXXOperatorCallExpr" and n.get("op") in NEG and len(X.call_args(n)) == 2):
         op = n["op"] if pol else NEG[n["op"]]
-        l, r = X.kids(n)
+        l, r = X.kids(n) if k == "BinaryOperator" else X.call_args(n)
         lv, rv = _lit(l), _lit(r)
         if lv is not None and rv is None:
             l, r, lv, rv, op = r, l, rv, lv, SWAP[op]
